@@ -710,6 +710,9 @@ class Inference(Serializable):
         """
         other = copy.deepcopy(self)
 
+        # discard the initial parameters cached by the parent
+        other.__dict__.pop('x0', None)
+
         other._x0 = x0
         other._check_x0_within_bounds()
 
